@@ -11,6 +11,7 @@ from ..report import Report
 from ..resolve import const_value, dotted, kwarg
 from ..util import before, calls_in, ext_name, is_manager_expr, manager_fields, returns_of, src
 from .filefam import FILES_MOD
+from ..paths import show, subterms, summaries
 
 
 def run(prog: Program, rep: Report):
@@ -82,58 +83,149 @@ def r1_unconditional(prog, rep: Report, tp: Cls, fp: Cls):
               scenario="inside the with block no handle is available")
 
 
+def _self_field(t, name=None) -> bool:
+    return isinstance(t, tuple) and len(t) >= 3 and t[0] == "attr" and t[1] == ("self",) and (name is None or t[2] == name)
+
+
+def _unwrap_copy(t):
+    """list(X) / tuple(X) / sorted(X) / X[:] / X.copy() read as X for the question "which container is walked" """
+    while isinstance(t, tuple):
+        if t[0] == "call" and t[1] in ("list", "tuple", "sorted") and len(t[2]) == 1:
+            t = t[2][0]
+        elif t[0] == "mcall" and t[1] == "copy":
+            t = t[2]
+        elif t[0] == "sub" and isinstance(t[2], tuple) and t[2][0] == "slice" and t[2][1:] == (("c", None),) * 3:
+            t = t[1]
+        else:
+            break
+    return t
+
+
+def _is_manager_term(t) -> bool:
+    if not isinstance(t, tuple):
+        return False
+    if _self_field(t) and t[2] in _MGR["fields"]:
+        return True
+    if t[0] == "eff" and t[1] in ("Manager", "SyncManager", "multiprocessing.Manager"):
+        return True
+    if t[0] == "eff" and t[1] in ("__enter__", "start") and _is_manager_term(t[2]):
+        return True
+    return False
+
+
+def _is_manager_list_term(t) -> bool:
+    return isinstance(t, tuple) and t[0] == "eff" and t[1] == "list" and _is_manager_term(t[2])
+
+
+def _assume_field(field, value):
+    def a(term):
+        if _self_field(term, field):
+            return value
+        return None
+    return a
+
+
 def r2_registered(prog, rep: Report, tp: Cls, fp: Cls):
     rep.rule("C20.R2", "every acquisition is registered: create() appends the name of the created file (delete=False) to the "
              "registry on every normal path, closes the handle and returns that name; FilePool.open maps every given path to "
              "open(path, mode)", floor=2)
-    f = prog.method_view(tp, "create")
+    f = prog.resolve(tp, "create")
     rep.fn(f)
     reg = _registry_field(prog, tp)
-    flow = Flow(f.node)
-    tmp_var = None
-    delete_false = False
-    for n in walk_own(f.node):
-        if isinstance(n, ast.Assign) and isinstance(n.value, ast.Call) and isinstance(n.targets[0], ast.Name):
-            name = ext_name(prog, f, n.value)
-            if name in ("tempfile.NamedTemporaryFile", "tempfile.mkstemp"):
-                tmp_var = n.targets[0].id
-                d = kwarg(n.value, "delete")
-                delete_false = name == "tempfile.mkstemp" or (d is not None and const_value(d, None) is False)
-                dir_ok = any(k.arg == "dir" for k in n.value.keywords)
-    if tmp_var is None:
-        rep.unrec("C20.R2", f, "create", "creation of the temporary file not recognised")
+    paths, un = summaries(prog, f, tp)
+    normal = [p for p in paths if p.exit == "return"]
+    if un or not normal:
+        rep.unrec("C20.R2", f, "create", "; ".join(un) or "no normal path through create()")
     else:
-        apps = [c for c in calls_in(f.node) if isinstance(c.func, ast.Attribute) and c.func.attr == "append"
-                and dotted(c.func.value) == (f.self_name, reg) and [src(a) for a in c.args] == [f"{tmp_var}.name"]]
-        closes = [c for c in calls_in(f.node) if isinstance(c.func, ast.Attribute) and c.func.attr == "close" and src(c.func.value) == tmp_var]
-        rets = returns_of(f.node)
-        straight = all(isinstance(s, (ast.Assign, ast.Expr, ast.Return)) for s in f.node.body)
-        ok = delete_false and len(apps) == 1 and len(closes) == 1 and bool(rets) and all(src(r.value) == f"{tmp_var}.name" for r in rets) and straight
-        why = ("the file is created with delete=True: it vanishes when the handle is closed" if not delete_false else
-               f"the created name is not appended exactly once to self.{reg} on every path" if len(apps) != 1 or not straight else
-               "the handle is not closed" if len(closes) != 1 else "create() does not return the registered name")
-        rep.check("C20.R2", f, "create", ok, f"{tmp_var}.name appended to self.{reg}, handle closed, name returned", why,
-                  scenario="a created file that is not registered survives flush() and the end of the context")
-    o = prog.method(fp, "open")
+        problems, unknown = [], []
+        for p in normal:
+            made = [e for e in p.events if e[0] == "call" and e[1].split(".")[-1] in ("NamedTemporaryFile", "mkstemp", "mktemp", "TemporaryFile")]
+            if len(made) != 1:
+                unknown.append(f"{len(made)} temporary-file creations on one path")
+                continue
+            mk = made[0]
+            kind = mk[1].split(".")[-1]
+            kws = {a[0]: a[1] for a in mk[3] if isinstance(a, tuple) and len(a) == 2 and isinstance(a[0], str) and a[0] not in ("c", "p")}
+            if kind not in ("NamedTemporaryFile", "mkstemp"):
+                unknown.append(f"file created by {mk[1]}")
+                continue
+            if kind == "NamedTemporaryFile" and kws.get("delete") != ("c", False):
+                problems.append("the file is created with delete=True: it vanishes when the handle is closed")
+                continue
+            objs = [t for e in p.events for x in e[1:] if isinstance(x, tuple) for t in subterms(x)
+                    if t[0] == "eff" and t[1] == kind] + [t for t in subterms(p.value) if t[0] == "eff" and t[1] == kind]
+            if not objs:
+                unknown.append("the created file object is not used")
+                continue
+            obj = objs[0]
+            if kind == "NamedTemporaryFile":
+                def is_name(t):
+                    return isinstance(t, tuple) and t[0] == "attr" and t[1] == obj and t[2] == "name"
+                closed = any(e[0] == "call" and e[1] == "close" and e[2] == obj for e in p.events) or \
+                    any(e[0] == "with" and e[1] == obj for e in p.events)
+            else:
+                def is_name(t):
+                    return isinstance(t, tuple) and t[0] == "sub" and t[1] == obj and t[2] == ("c", 1)
+                closed = any(e[0] == "call" and e[1] in ("os.close", "close") and e[3] and e[3][0][:3] == ("sub", obj, ("c", 0))
+                             for e in p.events)
+            apps = [e for e in p.events if e[0] == "call" and e[1] == "append" and _self_field(e[2], reg)]
+            good_apps = [e for e in apps if len(e[3]) == 1 and is_name(e[3][0])]
+            if len(good_apps) != 1 or len(apps) != 1:
+                problems.append(f"the created name is not appended exactly once to self.{reg} on every path")
+            elif not closed:
+                problems.append("the handle is not closed")
+            elif not is_name(p.value):
+                problems.append("create() does not return the registered name")
+        if problems:
+            rep.viol("C20.R2", f, "create", sorted(set(problems))[0],
+                     scenario="a created file that is not registered survives flush() and the end of the context")
+        elif unknown:
+            rep.unrec("C20.R2", f, "create", sorted(set(unknown))[0])
+        else:
+            rep.ok("C20.R2", f, "create", f"on each of {len(normal)} normal paths: name of the created file (delete=False) appended to "
+                   f"self.{reg}, handle closed, name returned")
+    o = prog.resolve(fp, "open")
     rep.fn(o)
-    ok = False
     files_f, mode_f = _filepool_fields(prog, fp)
-    for n in walk_own(o.node):
-        if isinstance(n, ast.Assign) and isinstance(n.value, ast.DictComp):
-            dc = n.value
-            g = dc.generators[0]
-            if len(dc.generators) == 1 and not g.ifs and dotted(g.iter) == (o.self_name, files_f) and isinstance(g.target, ast.Name) \
-                    and src(dc.key) == g.target.id and isinstance(dc.value, ast.Call) and src(dc.value.func) == "open" \
-                    and [src(a) for a in dc.value.args] == [g.target.id, f"{o.self_name}.{mode_f}"]:
-                t0 = n.targets[0]
-                # stored on the pool directly, or built in a local that is then stored on the pool
-                ok = (dotted(t0) is not None and dotted(t0)[0] == o.self_name) or \
-                    (isinstance(t0, ast.Name) and any(isinstance(m, ast.Assign) and isinstance(m.value, ast.Name) and m.value.id == t0.id
-                                                      and dotted(m.targets[0]) and dotted(m.targets[0])[0] == o.self_name
-                                                      for m in walk_own(o.node)))
-    rep.check("C20.R2", o, "open-all", ok, "{path: open(path, mode) for path in files}, unfiltered",
-              "FilePool.open does not map every given path to open(path, self.<mode>)",
-              scenario="some of the given files are not opened (or opened in another mode): pool[path] raises KeyError")
+    paths, un = summaries(prog, o, fp)
+    normal = [p for p in paths if p.exit == "return"]
+    stores = []
+    for p in normal:
+        for fld, t in p.heap.items():
+            if isinstance(t, tuple) and t[0] == "comp" and t[1] == "dict":
+                stores.append((fld, t))
+    if un or not normal:
+        rep.unrec("C20.R2", o, "open-all", "; ".join(un) or "no normal path through open()")
+    elif not stores:
+        opens = [e for p in normal for e in p.events if e[0] == "call" and e[1] == "open"]
+        early = None
+        for p in normal:
+            evs = list(p.events)
+            for i, e in enumerate(evs):
+                if e[0] == "setfield" and isinstance(e[2], tuple) and e[2][0] in ("dict", "comp", "call") and e[2] != ("c", None):
+                    if any(x[0] == "call" and x[1] == "open" for x in evs[i + 1:]):
+                        early = e[1]
+        if early:
+            rep.viol("C20.R2", o, "open-all", f"self.{early} is put on the pool before every file is open: when a later open() fails the "
+                     "handles opened so far stay referenced by a pool that looks opened, and nothing closes them (the context was "
+                     "never entered, so __exit__ does not run)",
+                     scenario="FilePool(['a', 'missing'], 'r').open(): 'a' stays open after the FileNotFoundError; len(pool) works")
+        elif opens:
+            rep.unrec("C20.R2", o, "open-all", "open() opens files but the mapping it builds is not a recognised {path: open(path, mode)} table")
+        else:
+            rep.viol("C20.R2", o, "open-all", "FilePool.open does not map every given path to open(path, self.<mode>)",
+                     scenario="some of the given files are not opened (or opened in another mode): pool[path] raises KeyError")
+    else:
+        ok = True
+        for fld, t in stores:
+            (k, v), it_term, conds, lid = t[2], t[3], t[4], t[5]
+            good = _self_field(_unwrap_copy(it_term), files_f) and not conds and k[0] == "elem" and _self_field(_unwrap_copy(k[1]), files_f) \
+                and isinstance(v, tuple) and v[0] == "eff" and v[1] == "open" and len(v[3]) >= 2 and v[3][0] == k and _self_field(v[3][1], mode_f)
+            ok = ok and good
+        _MGR["handles_field"] = stores[0][0]
+        rep.check("C20.R2", o, "open-all", ok, "{path: open(path, mode) for path in files}, unfiltered",
+                  "FilePool.open does not map every given path to open(path, self.<mode>)",
+                  scenario="some of the given files are not opened (or opened in another mode): pool[path] raises KeyError")
 
 
 _MGR = {"self": "self", "fields": set()}
@@ -205,156 +297,182 @@ def r3_covers(prog, rep: Report, tp: Cls, fp: Cls):
              "list iff multi_proc); remove deletes the file and unregisters the path; FilePool.close closes each handle and "
              "drops the mapping", floor=5)
     reg = _registry_field(prog, tp)
-    f = prog.method_view(tp, "flush")
+    mpf = _multi_proc_field(prog, tp)
+    f = prog.resolve(tp, "flush")
     rep.fn(f)
-    loops = [n for n in f.node.body if isinstance(n, ast.For) and dotted(n.iter) == (f.self_name, reg)]
-    ok, why = False, f"flush does not loop over self.{reg}"
-    if len(loops) == 1 and isinstance(loops[0].target, ast.Name):
-        lp = loops[0]
-        p = lp.target.id
-        rm = [c for c in ast.walk(lp) if isinstance(c, ast.Call) and ext_name(prog, f, c) in ("os.remove", "os.unlink") and [src(a) for a in c.args] == [p]]
-        tolerant = False
-        for c in rm:
-            par = getattr(getattr(c, "_parent", None), "_parent", None)
-            if isinstance(par, ast.Try) and any(h.type is not None and src(h.type) in ("FileNotFoundError", "OSError") for h in par.handlers) \
-                    and not any(isinstance(x, (ast.Raise, ast.Break, ast.Return)) for h in par.handlers for x in ast.walk(h)):
-                tolerant = True
-        skips = any(isinstance(x, (ast.Break, ast.Return)) for x in ast.walk(lp)) or \
-            any(isinstance(x, ast.If) for x in lp.body)
-        ok = len(rm) == 1 and tolerant and not skips
-        why = ("each registered path is not removed exactly once" if len(rm) != 1 else
-               "a file that is already gone aborts the flush (FileNotFoundError not tolerated)" if not tolerant else
-               "the loop can skip registered paths")
-    rep.check("C20.R3", f, "flush-removes-all", ok, f"os.remove(p) for every p in self.{reg}, tolerating FileNotFoundError", why,
-              scenario="create three files, delete one by hand, flush(): the remaining files must be removed too")
-    # registry reset of the right kind, after the loop
-    resets = [n for n in f.node.body if isinstance(n, ast.Assign) and dotted(n.targets[0]) == (f.self_name, reg)]
-    ok = False
-    if len(resets) == 1 and loops and f.node.body.index(resets[0]) > f.node.body.index(loops[0]):
-        v = resets[0].value
-        if isinstance(v, ast.IfExp):
-            neg = isinstance(v.test, ast.UnaryOp) and isinstance(v.test.op, ast.Not)
-            mp = dotted(v.test.operand if neg else v.test) == (f.self_name, _multi_proc_field(prog, tp))
-            mgr = isinstance(v.body, ast.Call) and _is_manager_list(v.body)
-            plain = isinstance(v.orelse, ast.List) and not v.orelse.elts
-            ok = mp and ((mgr and plain and not neg) or (neg and isinstance(v.body, ast.List) and isinstance(v.orelse, ast.Call) and _is_manager_list(v.orelse)))
-    rep.check("C20.R3", f, "flush-resets-registry", ok, "registry replaced by a manager list iff multi_proc, else []",
-              "after flush the registry is not an empty list of the right kind (manager list iff multi_proc)",
-              scenario="multi_proc pool: flush(), then a child process calls create(): with a plain list the parent never learns "
-                       "about the file and leaves it behind")
-    en = prog.method_view(tp, "__enter__")
+
+    def is_reg0(t) -> bool:
+        """the registry as it was when the method was entered (possibly through a copy)"""
+        t = _unwrap_copy(t)
+        return _self_field(t, reg) and (len(t) == 3 or t[3] == 0)
+    paths, un = summaries(prog, f, tp)
+    if un:
+        rep.unrec("C20.R3", f, "flush-removes-all", "; ".join(un))
+        rep.unrec("C20.R3", f, "flush-resets-registry", "; ".join(un))
+    else:
+        normal = [p for p in paths if p.exit == "return"]
+        raising = [p for p in paths if p.exit != "return"]
+        looped = [p for p in normal if any(e[0] == "loop" and is_reg0(e[2]) for e in p.events)]
+        why = None
+        if not normal:
+            why = "flush has no normal path"
+        elif len(looped) != len(normal):
+            why = f"flush does not loop over self.{reg} on every path"
+        else:
+            rounds = 0
+            tolerant = False
+            for p in normal + raising:
+                evs = list(p.events)
+                for i, e in enumerate(evs):
+                    if e[0] == "iter" and isinstance(e[2], tuple) and e[2][0] == "elem" and is_reg0(e[2][1]):
+                        rounds += 1
+                        rest = evs[i + 1:]
+                        rm = [x for x in rest if x[0] == "call" and x[1] in ("os.remove", "os.unlink") and x[3] == (e[2],)]
+                        if len(rm) != 1:
+                            why = why or ("the loop can skip registered paths" if not rm else "each registered path is not removed exactly once")
+                        elif any(x[0] == "handler" and x[1] in ("FileNotFoundError", "OSError", "Exception") for x in rest) \
+                                and p.exit == "return":
+                            tolerant = True
+            if why is None and not rounds:
+                why = "the loop body was not understood"
+            if why is None and not tolerant:
+                why = "a file that is already gone aborts the flush (FileNotFoundError not tolerated)"
+            if why is None and any(e[0] == "raise" for p in raising for e in p.events):
+                why = "flush raises from inside the removal loop: the remaining files stay on disk"
+        rep.check("C20.R3", f, "flush-removes-all", why is None, f"os.remove(p) for every p in self.{reg}, tolerating FileNotFoundError",
+                  why or "", scenario="create three files, delete one by hand, flush(): the remaining files must be removed too")
+        # registry reset of the right kind, per mode
+        bad = None
+        for mode in (True, False):
+            ps, un2 = summaries(prog, f, tp, assume=_assume_field(mpf, mode))
+            for p in [q for q in ps if q.exit == "return"]:
+                t = p.heap.get(reg)
+                if mode and not (t is not None and _is_manager_list_term(t) and not t[3]):
+                    bad = bad or ("multi_proc", t)
+                if not mode and t != ("list",):
+                    bad = bad or ("single-process", t)
+        rep.check("C20.R3", f, "flush-resets-registry", bad is None, "registry replaced by a manager list iff multi_proc, else []",
+                  "after flush the registry is not an empty list of the right kind (manager list iff multi_proc)"
+                  + (f": for a {bad[0]} pool it is {show(bad[1]) if bad[1] is not None else 'left as it was'}" if bad else ""),
+                  scenario="multi_proc pool: flush(), then a child process calls create(): with a plain list the parent never learns "
+                           "about the file and leaves it behind")
+    en = prog.resolve(tp, "__enter__")
     rep.fn(en)
     # per mode (multi_proc / single process): what does __enter__ make of the registry?
     #   multi_proc : it must become a manager list (children append to it) that starts with the paths already registered
     #   single     : it must not be replaced at all, or only by a container that starts with the registered paths
-    # An assignment under `if self.<multi_proc>` counts for that arm only; a conditional expression is split by its test.
-    mpf = _multi_proc_field(prog, tp)
-    old_reg = f"{en.self_name}.{reg}"
-    per_mode: Dict[bool, List[Tuple[ast.expr, int]]] = {True: [], False: []}
-    for n in walk_own(en.node):
-        if not (isinstance(n, ast.Assign) and any(dotted(t) == (en.self_name, reg) for t in n.targets)):
-            continue
-        modes = {True, False}
-        ch, par = n, getattr(n, "_parent", None)
-        while par is not None and par is not en.node:
-            if isinstance(par, ast.If):
-                t = par.test
-                neg = isinstance(t, ast.UnaryOp) and isinstance(t.op, ast.Not)
-                if dotted(t.operand if neg else t) == (en.self_name, mpf):
-                    in_body = ch in par.body
-                    modes &= {in_body != neg}
-            ch, par = par, getattr(par, "_parent", None)
-        v = n.value
-        for m in modes:
-            vm = v
-            if isinstance(v, ast.IfExp):
-                t = v.test
-                neg = isinstance(t, ast.UnaryOp) and isinstance(t.op, ast.Not)
-                if dotted(t.operand if neg else t) == (en.self_name, mpf):
-                    vm = v.body if (m != neg) else v.orelse
-            per_mode[m].append((vm, n.lineno))
-
-    def carries(v) -> bool:
-        return isinstance(v, ast.Call) and len(v.args) == 1 and src(v.args[0]) in (old_reg, f"list({old_reg})")
     problems = []
-    mp = per_mode[True]
-    if not mp:
-        problems.append((en.node.lineno, "multi_proc", "__enter__ does not make the registry a manager list for a multi_proc pool",
-                         "files created by child processes are appended to the child's private copy of the list and survive the context"))
-    for v, ln in mp:
-        if not (isinstance(v, ast.Call) and _is_manager_list(v)):
-            problems.append((ln, "multi_proc", f"for a multi_proc pool the registry becomes `{src(v)}`, not a manager list",
-                             "files created by child processes are appended to the child's private copy of the list and survive the context"))
-        elif not carries(v):
-            problems.append((ln, "multi_proc", f"`{src(v)}` replaces the registry without the paths already registered",
-                             "p = TmpPool(multi_proc=True); p.create(); with p: pass  -> the file is no longer listed and stays on disk"))
-    for v, ln in per_mode[False]:
-        if not carries(v):
-            problems.append((ln, "single", f"for a single-process pool __enter__ replaces the registry by `{src(v)}`, forgetting the paths "
+    unrec = []
+    for mode in (True, False):
+        ps, un2 = summaries(prog, en, tp, assume=_assume_field(mpf, mode))
+        unrec += un2
+        for p in [q for q in ps if q.exit == "return"]:
+            t = p.heap.get(reg)
+            carries = t is not None and isinstance(t, tuple) and t[0] in ("eff", "call") and len(t[3] if t[0] == "eff" else t[2]) == 1 \
+                and is_reg0((t[3] if t[0] == "eff" else t[2])[0])
+            if mode:
+                if t is None:
+                    problems.append(("multi_proc", "__enter__ does not make the registry a manager list for a multi_proc pool",
+                                     "files created by child processes are appended to the child's private copy of the list and survive the context"))
+                elif not _is_manager_list_term(t):
+                    problems.append(("multi_proc", f"for a multi_proc pool the registry becomes `{show(t)}`, not a manager list",
+                                     "files created by child processes are appended to the child's private copy of the list and survive the context"))
+                elif not carries:
+                    problems.append(("multi_proc", f"`{show(t)}` replaces the registry without the paths already registered",
+                                     "p = TmpPool(multi_proc=True); p.create(); with p: pass  -> the file is no longer listed and stays on disk"))
+            elif t is not None and not carries:
+                problems.append(("single", f"for a single-process pool __enter__ replaces the registry by `{show(t)}`, forgetting the paths "
                                            "already registered",
-                             "p = TmpPool(); p.create(); with p: pass  -> the file is no longer listed and stays on disk"))
-    returns_self = any(src(r.value) == en.self_name for r in returns_of(en.node) if r.value is not None)
-    if not returns_self:
-        problems.append((en.node.lineno, "result", "__enter__ does not return the pool", "`with TmpPool() as pool` binds None"))
-    if problems:
-        for ln, mode, why, scen in problems:
-            rep.viol("C20.R3", en, f"enter-registry:{mode}", why, scenario=scen, line=ln)
+                                 "p = TmpPool(); p.create(); with p: pass  -> the file is no longer listed and stays on disk"))
+            if p.value != ("self",):
+                problems.append(("result", "__enter__ does not return the pool", "`with TmpPool() as pool` binds None"))
+    if unrec:
+        rep.unrec("C20.R3", en, "enter-registry", "; ".join(unrec))
+    elif problems:
+        for mode, why, scen in sorted(set(problems)):
+            rep.viol("C20.R3", en, f"enter-registry:{mode}", why, scenario=scen)
     else:
         rep.ok("C20.R3", en, "enter-registry", "__enter__ makes the registry a manager list seeded with the registered paths iff "
                "multi_proc, leaves it alone otherwise, and returns the pool")
-    rmv = prog.method_view(tp, "remove")
+    rmv = prog.resolve(tp, "remove")
     rep.fn(rmv)
-    p = rmv.params[1]
-    rm = [c for c in calls_in(rmv.node) if ext_name(prog, rmv, c) in ("os.remove", "os.unlink") and [src(a) for a in c.args] == [p]]
-    unreg = [c for c in calls_in(rmv.node) if isinstance(c.func, ast.Attribute) and c.func.attr == "remove"
-             and dotted(c.func.value) == (rmv.self_name, reg) and [src(a) for a in c.args] == [p]]
-    uncond = all(getattr(getattr(c, "_parent", None), "_parent", None) is rmv.node for c in unreg)
-    order_ok = bool(rm) and bool(unreg) and before(rmv.node, rm[0], unreg[0])
-    rep.check("C20.R3", rmv, "remove-order", order_ok, "the path is unregistered only after the deletion was attempted",
-              "remove() drops the path from the registry before os.remove ran: if the deletion fails (e.g. PermissionError) the file "
-              "stays on disk but is no longer listed, so neither flush() nor leaving the context removes it",
-              scenario="os.remove raises PermissionError once inside remove(p): afterwards p exists but the pool does not list it")
-    rep.check("C20.R3", rmv, "remove", len(rm) == 1 and len(unreg) == 1 and uncond, "deletes the file and unregisters the path",
-              "remove() does not both delete the file and (unconditionally) unregister the path",
-              scenario="pool.remove(p) leaves p listed: len(pool) and pool[i] disagree with the files on disk")
-    cl = prog.method_view(fp, "close")
+    pth = ("p", rmv.params[1])
+    ps, un2 = summaries(prog, rmv, tp)
+    normal = [q for q in ps if q.exit == "return"]
+    if un2 or not normal:
+        rep.unrec("C20.R3", rmv, "remove", "; ".join(un2) or "no normal path")
+        rep.unrec("C20.R3", rmv, "remove-order", "; ".join(un2) or "no normal path")
+    else:
+        both, order_ok = True, True
+        for q in normal:
+            rm = [i for i, e in enumerate(q.events) if e[0] == "call" and e[1] in ("os.remove", "os.unlink") and e[3] == (pth,)]
+            unreg = [i for i, e in enumerate(q.events) if e[0] == "call" and e[1] == "remove" and _self_field(e[2], reg) and e[3] == (pth,)]
+            if len(rm) != 1 or len(unreg) != 1:
+                both = False
+            if rm and unreg and not rm[0] < unreg[0]:
+                order_ok = False
+            if unreg and not rm:
+                order_ok = False
+        rep.check("C20.R3", rmv, "remove-order", order_ok, "the path is unregistered only after the deletion was attempted",
+                  "remove() drops the path from the registry before os.remove ran: if the deletion fails (e.g. PermissionError) the file "
+                  "stays on disk but is no longer listed, so neither flush() nor leaving the context removes it",
+                  scenario="os.remove raises PermissionError once inside remove(p): afterwards p exists but the pool does not list it")
+        rep.check("C20.R3", rmv, "remove", both, "deletes the file and unregisters the path",
+                  "remove() does not both delete the file and (unconditionally) unregister the path",
+                  scenario="pool.remove(p) leaves p listed: len(pool) and pool[i] disagree with the files on disk")
+    cl = prog.resolve(fp, "close")
     rep.fn(cl)
-    hf = None
-    o_ = prog.method(fp, "open")
-    for n in walk_own(o_.node):
-        if isinstance(n, ast.Assign) and isinstance(n.value, ast.DictComp):
-            t0 = n.targets[0]
-            if dotted(t0) and len(dotted(t0)) == 2 and dotted(t0)[0] == o_.self_name:
-                hf = dotted(t0)[1]
-            elif isinstance(t0, ast.Name):
-                for m in walk_own(o_.node):
-                    if isinstance(m, ast.Assign) and isinstance(m.value, ast.Name) and m.value.id == t0.id and dotted(m.targets[0]) \
-                            and len(dotted(m.targets[0])) == 2:
-                        hf = dotted(m.targets[0])[1]
-    loops = [n for n in cl.node.body if isinstance(n, ast.For)]
-    ok = False
-    if hf and len(loops) == 1 and isinstance(loops[0].target, ast.Name):
-        lp = loops[0]
-        it_ok = src(lp.iter) in (f"{cl.self_name}.{hf}.values()",)
-        closes = [c for c in ast.walk(lp) if isinstance(c, ast.Call) and isinstance(c.func, ast.Attribute) and c.func.attr == "close"
-                  and src(c.func.value) == lp.target.id]
-        skip = any(isinstance(x, (ast.If, ast.Break, ast.Return)) for x in ast.walk(lp))
-        dropped = any(isinstance(s, ast.Assign) and dotted(s.targets[0]) == (cl.self_name, hf) and const_value(s.value, 0) is None
-                      for s in cl.node.body[cl.node.body.index(lp) + 1:])
-        ok = it_ok and len(closes) == 1 and not skip and dropped
-        # every path through close() reaches the loop: the only early exit allowed is "nothing was opened" (mapping is None / empty)
-        nothing = {f"{cl.self_name}.{hf} is None", f"not {cl.self_name}.{hf}", f"{cl.self_name}.{hf} is None or not {cl.self_name}.{hf}"}
-        for st in cl.node.body[:cl.node.body.index(lp)]:
-            for x in ast.walk(st):
-                if isinstance(x, (ast.Return, ast.Raise)):
-                    guard = getattr(x, "_parent", None)
-                    if not (isinstance(guard, ast.If) and x in guard.body and src(guard.test) in nothing):
-                        rep.viol("C20.R3", cl, "close-all", f"close() can leave at line {x.lineno} before any handle is closed"
-                                 + (f" (when `{src(guard.test)}`)" if isinstance(guard, ast.If) else ""),
-                                 scenario="the with-body closes one handle itself (or the guard is true for another reason): the other "
-                                          "handles stay open after the context", line=x.lineno)
-                        ok = None
-    if ok is not None:
-        rep.check("C20.R3", cl, "close-all", ok, "closes every handle of the mapping, then drops the mapping",
-              "FilePool.close does not close every handle of the mapping and drop it afterwards",
-              scenario="after the with block some handle.closed is False")
+    hf = _MGR.get("handles_field")
+    ps, un2 = summaries(prog, cl, fp)
+    if un2 or hf is None:
+        rep.unrec("C20.R3", cl, "close-all", "; ".join(un2) or "the field holding the handles was not found in open()")
+        return
+
+    def is_hf0(t) -> bool:
+        return _self_field(t, hf) and (len(t) == 3 or t[3] == 0)
+
+    def nothing_open(q) -> bool:
+        for d, o in q.decisions:
+            neg = False
+            while isinstance(d, tuple) and d and d[0] == "not":
+                d, neg = d[1], not neg
+            val = (o != neg)
+            if is_hf0(d) and not val:
+                return True                                   # the mapping is falsy: None or empty
+            if isinstance(d, tuple) and d[0] == "cmp" and is_hf0(d[2]) and d[3] == ("c", None) and \
+                    ((d[1] == "Is" and val) or (d[1] == "IsNot" and not val)):
+                return True
+            if isinstance(d, tuple) and d[0] == "mcall" and d[1] == "closed" and not val:
+                return False
+        return False
+    why = None
+    line = None
+    for q in ps:
+        loops = [e for e in q.events if e[0] == "loop"]
+        walks = [e for e in loops if isinstance(_unwrap_copy(e[2]), tuple) and _unwrap_copy(e[2])[0] == "mcall"
+                 and _unwrap_copy(e[2])[1] == "values" and is_hf0(_unwrap_copy(e[2])[2])]
+        if q.exit != "return":
+            if any(e[0] == "raise" for e in q.events):
+                why = why or "close() raises instead of closing the handles"
+            continue
+        if not walks:
+            if not nothing_open(q):
+                why = why or "close() can return before any handle is closed" + \
+                    (f" (when `{show(q.decisions[-1][0])}` is {q.decisions[-1][1]})" if q.decisions else "")
+            continue
+        evs = list(q.events)
+        for i, e in enumerate(evs):
+            if e[0] == "iter" and isinstance(e[2], tuple) and e[2][0] == "elem":
+                closes = [x for x in evs[i + 1:] if x[0] == "call" and x[1] == "close" and x[2] == e[2]]
+                if len(closes) != 1:
+                    why = why or "a handle of the mapping is not closed (the loop can skip it)"
+        if q.heap.get(hf) != ("c", None):
+            why = why or "the mapping is not dropped (set to None) after the handles were closed"
+    if why and "before any handle" in why:
+        rep.viol("C20.R3", cl, "close-all", why,
+                 scenario="the with-body closes one handle itself (or the guard is true for another reason): the other "
+                          "handles stay open after the context")
+    else:
+        rep.check("C20.R3", cl, "close-all", why is None, "closes every handle of the mapping, then drops the mapping",
+                  "FilePool.close does not close every handle of the mapping and drop it afterwards" + (f": {why}" if why else ""),
+                  scenario="after the with block some handle.closed is False")
